@@ -60,9 +60,17 @@ class Graph:
         self.nodes, self.edges = [], []
 
     def sym_getattr(self, ev, name, node, mod):
-        if name in ("add_node", "add_edge"):
+        if name in ("add_node", "add_edge", "successors", "predecessors", "out_degree", "in_degree", "has_edge", "has_node", "number_of_nodes", "number_of_edges"):
             return BoundLib(f"graph.{name}", self)
+        I = sp.Integer
+        if name == "edges":
+            return Tup([Tup([I(u), I(v)]) for u, v in self.edges], "list")
+        if name == "nodes":
+            return Tup([I(u) for u in self.nodes], "list")
         raise ev.err(f"graph attribute {name}", node, mod)
+
+    def sym_contains(self, ev, item, n, mod):
+        return int(item) in self.nodes
 
 
 def topo(g: Graph, reverse_ties: bool):
@@ -107,6 +115,29 @@ def setup(ctx, model, reverse_ties=False):
                 a[0].nodes.append(n)
         a[0].edges.append((u, v))
 
+    def g_query(kind):
+        def f(ev, a, k):
+            g = a[0]
+            I = sp.Integer
+            if kind == "successors":
+                return Tup([I(v) for u, v in g.edges if u == int(a[1])], "list")
+            if kind == "predecessors":
+                return Tup([I(u) for u, v in g.edges if v == int(a[1])], "list")
+            if kind == "out_degree":
+                return I(sum(1 for u, v in set(g.edges) if u == int(a[1])))
+            if kind == "in_degree":
+                return I(sum(1 for u, v in set(g.edges) if v == int(a[1])))
+            if kind == "has_edge":
+                return (int(a[1]), int(a[2])) in g.edges
+            if kind == "has_node":
+                return int(a[1]) in g.nodes
+            if kind == "number_of_nodes":
+                return I(len(g.nodes))
+            if kind == "number_of_edges":
+                return I(len(set(g.edges)))
+            raise AnalysisError(f"graph query {kind}")
+        return f
+
     def toposort(ev, a, k):
         return Tup([sp.Integer(n) for n in topo(a[0], reverse_ties)], "list")
 
@@ -141,6 +172,8 @@ def setup(ctx, model, reverse_ties=False):
                                                           "value_adiabatic": PH["ad"](KIND[kind], sp.simplify(ea), sp.simplify(eb)), "e": e})
         return ctor
 
+    for _q in ("successors", "predecessors", "out_degree", "in_degree", "has_edge", "has_node", "number_of_nodes", "number_of_edges"):
+        intr[f"graph.{_q}"] = g_query(_q)
     intr.update({"networkx.DiGraph": new_graph, "graph.add_node": add_node, "graph.add_edge": add_edge, "networkx.topological_sort": toposort,
                  "numpy.allclose": allclose})
     seeds = {("global", "cij.util:c_"): LibV("cij.c_"), (LONG, "__new__"): nonshear("long"), (OFFD, "__new__"): nonshear("offd")}
